@@ -208,6 +208,58 @@ function noExtra(s, v) {
     default: return true;
   }
 }
+// ---------------------------------------------------------------------------------------------- reference membership (C01)
+// TypeScript membership under beff's runtime conventions, written against the *expected* type of the program (derived
+// independently of the compiler) and using no code of the runtime under test.  Symbol-aware through the $S operators.
+const T_ = (x) => $S.un('typeof', x);
+const EQ = (a, b) => $S.bin('===', a, b);
+const nullish = (v) => $S.bin('==', v, null);
+function refMember(s, v, defs, fuel = 60) {
+  if (fuel <= 0) throw new Error('reference: unfolding fuel');
+  switch (s.t) {
+    case 'any': return true;
+    case 'never': return false;
+    case 'typeof': return T_(v) === s.name;
+    case 'nullish': return nullish(v);
+    case 'const': return s.v === null ? nullish(v) : EQ(v, s.v);
+    case 'consts': for (const c of s.vs) if (c === null ? nullish(v) : EQ(v, c)) return true; return false;
+    case 'regex': { if (T_(v) !== 'string') return false; return $S.mcall(new RegExp(s.anchored), 'test', [v]); }
+    case 'date': return $S.bin('instanceof', v, Date);
+    case 'bigint': return T_(v) === 'bigint';
+    case 'typedarray': return $S.bin('instanceof', v, globalThis[s.name]);
+    case 'optional': return nullish(v) || refMember(s.x, v, defs, fuel - 1);
+    case 'array': { if (!$S.mcall(Array, 'isArray', [v])) return false; for (let i = 0; i < v.length; i++) if (!refMember(s.x, v[i], defs, fuel - 1)) return false; return true; }
+    case 'tuple': {
+      if (!$S.mcall(Array, 'isArray', [v])) return false;
+      if (s.rest ? v.length < 0 : v.length > s.prefix.length) return false;
+      for (let i = 0; i < s.prefix.length; i++) if (!refMember(s.prefix[i], v[i], defs, fuel - 1)) return false;     // a missing element reads as undefined
+      if (s.rest) for (let i = s.prefix.length; i < v.length; i++) if (!refMember(s.rest, v[i], defs, fuel - 1)) return false;
+      return true;
+    }
+    case 'object': {
+      if (T_(v) !== 'object' || nullish(v) || $S.mcall(Array, 'isArray', [v])) return false;
+      const declared = Object.keys(s.props);
+      for (const k of declared) if (!refMember(s.props[k], v[k], defs, fuel - 1)) return false;
+      if (s.index && s.index.length) {
+        for (const k of Object.keys(v)) {
+          if (declared.includes(k)) continue;
+          let ok = false;
+          for (const p of s.index) if (refMember(p.key, k, defs, fuel - 1) && refMember(p.value, v[k], defs, fuel - 1)) { ok = true; break; }
+          if (!ok) return false;
+        }
+      }
+      return true;
+    }
+    case 'anyof': for (const x of s.xs) if (refMember(x, v, defs, fuel - 1)) return true; return false;
+    case 'allof': for (const x of s.xs) if (!refMember(x, v, defs, fuel - 1)) return false; return true;
+    case 'disc': { if (T_(v) !== 'object' || nullish(v)) return false; for (const k of Object.keys(s.mapping)) { const m = s.mapping[k]; if (refMember({ t: 'object', props: Object.assign({ [s.key]: { t: 'const', v: k } }, m.props), index: m.index }, v, defs, fuel - 1)) return true; } return false; }
+    case 'map': { if (!$S.bin('instanceof', v, Map)) return false; for (const [k, x] of v) if (!refMember(s.k, k, defs, fuel - 1) || !refMember(s.v, x, defs, fuel - 1)) return false; return true; }
+    case 'set': { if (!$S.bin('instanceof', v, Set)) return false; for (const x of v) if (!refMember(s.x, x, defs, fuel - 1)) return false; return true; }
+    case 'ref': return refMember(defs[s.name], v, defs, fuel - 1);
+    default: throw new Error('reference: ' + s.t);
+  }
+}
+
 function resolveSpec(s) { let g = 0; while (s.t === 'ref' && g++ < 20) s = job.defs[s.name]; return s; }
 
 // ---------------------------------------------------------------------------------------------- main
@@ -276,6 +328,10 @@ function body(input) {
         if (s1 !== s2) V('C12', `printErrors is not deterministic (${tag})`);
         if (parseThrew && isParseFailure(parseThrew)) { let again; try { parser.parse(input, opts); } catch (e) { if (e instanceof $S.NeedsRefinement || e instanceof $S.Unmodelled || e instanceof $S.Infeasible) throw e; again = e; } if (!again || again.message !== parseThrew.message) V('C12', `parse error message is not deterministic (${tag})`); }
       }
+    }
+    if (props.includes('C01') && !opts.disallowExtraProperties) {
+      const exp = refMember(job.expected, input, job.expectedDefs || {});
+      if (v !== exp) V('C01', `validator ${v ? 'accepts' : 'rejects'} but the value ${exp ? 'is' : 'is not'} a member of the declared type`);
     }
     if (props.includes('C11') && !opts.disallowExtraProperties) {
       const strictOpts = Object.assign({}, opts, { disallowExtraProperties: true });
